@@ -45,6 +45,7 @@ fn main() {
 	match args[1].as_str() {
 		"backend" => println!("{}", BACKEND),
 		"cert-cases" => certdrv::run_cases(&args[2], &args[3]),
+		"cert-random" => certdrv::run_random(&args[2], args[3].parse().unwrap()),
 		"csr-cases" => csrdrv::run_csr_cases(&args[2], &args[3]),
 		"crl-cases" => csrdrv::run_crl_cases(&args[2], &args[3]),
 		"strings" => strdrv::run(&args[2], &args[3]),
